@@ -462,6 +462,57 @@ def check_stray_files(cls, rec):
         shutil.rmtree(d, ignore_errors=True)
 
 
+def check_w_over_kept_manifests(rec):
+    """IH5MFRecord keeps a manifest next to each container and protects manifests whose container was removed (they
+    are what stubs are made from). Mode 'w' replaces the whole record: it either succeeds (and the record can be
+    continued afterwards) or refuses before it deletes anything."""
+    for removed in (["foo.ih5"], ["foo.p1.ih5"], ["foo.ih5", "foo.p1.ih5"]):
+        d = H.new_scratch("vt-c03k-")
+        case = dict(kind="kept-manifests", removed=removed)
+        try:
+            r = H.IH5MFRecord(os.path.join(d, "foo"), "w")
+            r["who"] = "old"
+            r.commit_patch()
+            r.create_patch()
+            r["v1"] = 1
+            r.close()
+            for n in removed:
+                os.unlink(os.path.join(d, n))
+            before = recutil.dir_digest(d)
+            try:
+                r = H.IH5MFRecord(os.path.join(d, "foo"), "w")
+                r["who"] = "new"
+                r.close()
+                err = None
+            except Exception as e:  # noqa: BLE001
+                H.close_leaked_h5()
+                err = f"{type(e).__name__}: {str(e)[:160]}"
+            now = recutil.dir_digest(d)
+            if err is not None:
+                gone = sorted(n for n in before if n not in now)
+                if gone:
+                    rec.fail("C03:w-refused-after-deleting", case, f"'w' raised {err} after deleting {gone}", "replaces the record, or refuses without touching files")
+                continue
+            try:
+                r = H.IH5MFRecord(os.path.join(d, "foo"), "r+")
+                v = _view(r)
+                r["more"] = 1
+                r.close()
+                r = H.IH5MFRecord(os.path.join(d, "foo"), "r")
+                v2 = _view(r)
+                r.close()
+            except Exception as e:  # noqa: BLE001
+                H.close_leaked_h5()
+                rec.fail("C03:record-unusable-after-w", case, f"after 'w' over {sorted(before)}: {type(e).__name__}: {str(e)[:160]} (files now: {sorted(recutil.dir_digest(d))})",
+                         "the new record can be reopened and patched")
+                continue
+            if v != {"/who": "new"} or v2 != {"/who": "new", "/more": 1}:
+                rec.fail("C03:view-after-w", case, [v, v2], "the new record only")
+            rec.case(nt_key=["kept-manifests", removed], classes=["w_over_kept_manifests"], sample=case)
+        finally:
+            shutil.rmtree(d, ignore_errors=True)
+
+
 def check_names(cls, rec):
     """Record names outside the documented alphabet are refused (they would collide with other records' files)."""
     d = H.new_scratch("vt-c03n-")
@@ -519,6 +570,7 @@ def run_shard(shard, tier, seed, rec):
             check_names(cls, rec)
             check_orphans(cls, rec)
             check_stray_files(cls, rec)
+        check_w_over_kept_manifests(rec)
         return
     if shard["kind"] == "matrix":
         cls = H.IH5Record if shard["cls"] == "IH5Record" else H.IH5MFRecord
